@@ -15,7 +15,7 @@ RULE = ('for every accepted (grammar, shell) the pair (DFA::from_regex_raw, .min
         'non-trivial = input automaton has >= 3 states; distinct by hash of the raw automaton')
 ASSUMPTIONS = ['inputs are compared by interned identity, which minimize() carries over unchanged',
                'cgv/automata.py (Moore refinement, product search) is the trusted oracle']
-MIN_EVALS = {'quick': 2000, 'thorough': 20000}
+MIN_EVALS = {'quick': 10000, 'thorough': 100000}
 NSHARDS = 64
 
 
@@ -111,10 +111,10 @@ def biased_grammar(r):
 
 def make_jobs(tier, seed):
     jobs = [('fixed',)]
-    n = 4 if tier == 'quick' else 5
+    n = 5 if tier == 'quick' else 6
     for s in range(NSHARDS):
         jobs.append(('exh', n, s))
-    nrand = 1600 if tier == 'quick' else 16000
+    nrand = 3200 if tier == 'quick' else 32000
     for s in range(NSHARDS):
         jobs.append(('rand', seed * 1000003 + s, nrand // NSHARDS))
         jobs.append(('bias', seed * 1000003 + 500 + s, nrand // NSHARDS))
